@@ -348,6 +348,8 @@ row(props=["C06"], func=RL + "EnterQualifiedNameList", params=["s", "ctx"], kind
     expr='call("strings.Split", GetText(q), ".")[0]', what="a thrown type references the first segment of its name")
 row(props=["C06"], func=RL + "EnterCatchType", params=["s", "ctx"], kind="callarg", callee=ADDF, arg=1, field="Name", each={"as": "q"},
     expr='call("strings.Split", GetText(q), ".")[0]', what="a caught type references the first segment of its name")
+row(props=["C01"], func=FL + "getMethodMapName", params=["method"], kind="depends", fields={"Name": "", "Position.StartLine": "", "Position.StartLinePosition": ""},
+    what="two declarations never share an entry of the per-class method table: the key identifies a declaration by name and start position (line and column)")
 
 json.dump({"e5": rows}, open(os.path.join(os.path.dirname(os.path.dirname(os.path.abspath(__file__))), "spec", "e5.json"), "w"), indent=1, ensure_ascii=False)
 print(len(rows), "rows")
